@@ -114,14 +114,20 @@ func (e *csvEncoder) Encode(writer io.Writer, node *CandidateNode) error {
 	} else if len(node.Content) == 0 {
 		return nil
 	}
-	if node.Content[0].Kind == ScalarNode {
-		return e.encodeRow(csvWriter, node.Content)
+	var err error
+	switch node.Content[0].Kind {
+	case ScalarNode:
+		err = e.encodeRow(csvWriter, node.Content)
+	case MappingNode:
+		err = e.encodeObjects(csvWriter, node.Content)
+	default:
+		err = e.encodeArrays(csvWriter, node.Content)
 	}
-
-	if node.Content[0].Kind == MappingNode {
-		return e.encodeObjects(csvWriter, node.Content)
+	if err != nil {
+		return err
 	}
-
-	return e.encodeArrays(csvWriter, node.Content)
-
+	// the csv writer buffers internally unless it is handed a *bufio.Writer:
+	// without this nothing reaches writers such as the buffer used for NUL separated output
+	csvWriter.Flush()
+	return csvWriter.Error()
 }
